@@ -444,6 +444,68 @@ fn merge_ctx(deviated: &Value, default: &Value, resolved: &Value) -> Value {
     }
 }
 
+/// Transport level: malformed HTTP bodies against a real server started with start(); every one
+/// must be answered (any status) and the server must still serve afterwards.
+fn transport_pass() -> (u64, Vec<(String, String)>, Vec<String>) {
+    use crate::wire::*;
+    let mut bad = Vec::new();
+    let mut errors = Vec::new();
+    let dir = crate::inst::fresh_dir();
+    let mut srv = match start_server(&ServerCfg { dir: dir.clone(), auth: false, network: "regtest".into(), traces: true }) {
+        Ok(s) => s,
+        Err(e) => return (0, bad, vec![format!("transport pass: server did not start: {}", e)]),
+    };
+    let deep = |n: usize| format!("{}1{}", "[".repeat(n), "]".repeat(n));
+    let big = format!(r#"{{"jsonrpc":"2.0","id":1,"method":"web3_sha3","params":["0x{}"]}}"#, "ab".repeat(6 * 1024 * 1024));
+    let batch = |n: usize| format!("[{}]", (0..n).map(|i| format!(r#"{{"jsonrpc":"2.0","id":{},"method":"eth_blockNumber","params":[]}}"#, i)).collect::<Vec<_>>().join(","));
+    let bodies: Vec<(String, String)> = vec![
+        ("empty body".into(), "".into()),
+        ("not json".into(), "hello".into()),
+        ("truncated json".into(), r#"{"jsonrpc":"2.0","id":1,"method":"eth_blockNu"#.into()),
+        ("json null".into(), "null".into()),
+        ("json number".into(), "7".into()),
+        ("empty batch".into(), "[]".into()),
+        ("batch of scalars".into(), "[1,2,3]".into()),
+        ("batch of 50".into(), batch(50)),
+        ("batch of 51 (over the limit)".into(), batch(51)),
+        ("batch of 2000".into(), batch(2000)),
+        ("method not a string".into(), r#"{"jsonrpc":"2.0","id":1,"method":7,"params":[]}"#.into()),
+        ("params a string".into(), r#"{"jsonrpc":"2.0","id":1,"method":"eth_blockNumber","params":"x"}"#.into()),
+        ("id an object".into(), r#"{"jsonrpc":"2.0","id":{"a":1},"method":"eth_blockNumber","params":[]}"#.into()),
+        ("no jsonrpc field".into(), r#"{"id":1,"method":"eth_blockNumber","params":[]}"#.into()),
+        ("duplicate keys".into(), r#"{"jsonrpc":"2.0","id":1,"id":2,"method":"eth_blockNumber","method":"brc20_mine","params":[]}"#.into()),
+        ("unknown method".into(), r#"{"jsonrpc":"2.0","id":1,"method":"nope","params":[]}"#.into()),
+        ("very long method name".into(), format!(r#"{{"jsonrpc":"2.0","id":1,"method":"{}","params":[]}}"#, "m".repeat(200_000))),
+        ("nul and escapes".into(), r#"{"jsonrpc":"2.0","id":1,"method":"web3_sha3","params":["\u0000\ud800"]}"#.into()),
+        ("nesting 200".into(), format!(r#"{{"jsonrpc":"2.0","id":1,"method":"eth_getLogs","params":{}}}"#, deep(200))),
+        ("nesting 100000".into(), format!(r#"{{"jsonrpc":"2.0","id":1,"method":"eth_getLogs","params":{}}}"#, deep(100_000))),
+        ("12 MiB body (over the request limit)".into(), big),
+        ("invalid utf-8".into(), String::from_utf8_lossy(&[0x7b, 0x22, 0xff, 0xfe, 0x22, 0x7d]).to_string()),
+    ];
+    let mut n = 0u64;
+    for (name, b) in &bodies {
+        n += 1;
+        if let Err(e) = http(&srv.addr, None, b) {
+            // a closed connection is an answer of the transport as long as the server stays up
+            if !e.contains("reset") && !e.contains("Broken pipe") && !e.contains("closed") {
+                bad.push((format!("transport: {}", name), format!("no HTTP answer to a request with {}: {}", name, e)));
+            }
+        }
+        let live = rpc(&srv.addr, None, "eth_blockNumber", &json!([]));
+        if live.get("result").is_none() {
+            bad.push((format!("transport: {}", name), format!("after a request with {} the server no longer answers eth_blockNumber: {}", name, live)));
+            break;
+        }
+    }
+    let m = rpc(&srv.addr, None, "brc20_mine", &json!([1, 5]));
+    if m.get("error").is_some() || m.get("transport_error").is_some() {
+        errors.push(format!("transport pass: brc20_mine afterwards: {}", m));
+    }
+    srv.stop();
+    remove_dir(&dir);
+    (n, bad, errors)
+}
+
 struct Running {
     child: std::process::Child,
     rx: mpsc::Receiver<String>,
@@ -569,8 +631,13 @@ pub fn run(tier: &str, seed: u64) -> i32 {
         }
         std::thread::sleep(Duration::from_millis(20));
     }
+    let (transport_cases, transport_bad, transport_errors) = transport_pass();
+    errors.extend(transport_errors);
     crate::inst::cleanup_stale_scratch();
     let mut vs: Vec<Violation> = Vec::new();
+    for (what, d) in &transport_bad {
+        vs.push(Violation { property: "C09".into(), kind: "wedged".into(), scenario: "transport".into(), start: "".into(), path: vec!["transport".into(), what.clone()], steps: vec![], detail: d.clone() });
+    }
     for (id, what, d) in &merged.panics {
         vs.push(Violation { property: "C09".into(), kind: "panic".into(), scenario: "requests".into(), start: "".into(), path: vec![format!("case {}", id), what.clone()], steps: vec![], detail: d.clone() });
     }
@@ -587,9 +654,9 @@ pub fn run(tier: &str, seed: u64) -> i32 {
         "rule": "request grid: for every registered method a valid default request and every request with one parameter (thorough: also two) deviating over a fixed menu (boundary integers, negative, float, empty / odd / non-hex / huge strings, every base64 prefix, truncated frame, bombs, null / bool / array / object, missing), in 3 (quick) / 6 (thorough) engine states; code paths: every byte string of length <= 2 (quick: all of length <= 1 and a rotating 1/16 slice of length 2) as init code, as runtime code, as call data and as input to each custom precompile; ABI grids of the custom precompiles directly and through a contract; 0xfc / 0xfd with complete override sets. Each case runs on the real dispatch table in a watched worker process; after every state-building case, after every panic and every 512 cases a liveness round (eth_blockNumber, brc20_clearCaches, brc20_mine, eth_getBlockByNumber) must succeed. distinct = enumerated cases",
         "samples": merged.samples.iter().take(8).collect::<Vec<_>>(),
         "cases_enumerated": total_cases, "answered_ok": merged.ok, "answered_error": merged.errors, "panics": merged.panics.len(), "wedges": merged.wedges.len(), "hangs": hangs.len(),
-        "cases_by_method": merged.by_method, "exhaustive": true, "machinery_errors": errors,
+        "transport_level_malformed_requests": transport_cases, "cases_by_method": merged.by_method, "exhaustive": true, "machinery_errors": errors,
     });
-    ev.assumptions = vec!["requests are issued through the real dispatch table (parameter decoding and handler bodies) without the HTTP transport; transport-level limits are jsonrpsee's".into(), "Bitcoin-RPC-backed precompile paths are only entered with complete transaction overrides (loss of the node is out of scope)".into()];
+    ev.assumptions = vec!["the grid is issued through the real dispatch table (parameter decoding and handler bodies) in process; the HTTP transport is exercised by a separate pass of 22 malformed bodies (not JSON, truncated, over-size, over-long batch, deep nesting, wrong types) against a server started with start()".into(), "Bitcoin-RPC-backed precompile paths are only entered with complete transaction overrides (loss of the node is out of scope)".into()];
     ev.violations = new.len() as i64;
     ev.wall_s = t0.elapsed().as_secs_f64();
     ev.write();
